@@ -96,7 +96,8 @@ def scenario(c, k, scratch):
         elif typ == "R":
             f = os.path.join(scratch, "c%d_%d.state" % (k, nsave))
             nsave += 1
-            L += ["save %s %s" % (c.get("fmt", "text"), f), "fresh", "capture"] + conf + ["load %s" % f]
+            ld = "load" if not c.get("mem") else ("loadbuf" if c.get("fmt", "text") == "binary" else "loadstr")   # file / memory buffer / string
+            L += ["save %s %s" % (c.get("fmt", "text"), f), "fresh", "capture"] + conf + ["%s %s" % (ld, f)]
         L += ["step", "rdump"]
     L.append("echo END %d" % k)
     return L
@@ -214,6 +215,8 @@ def parse_impl(lines):
             cur = None
         elif l.startswith("CONFIG") or l.startswith("LOAD") or l.startswith("SAVE"):
             cs["config"].append(l)
+        elif l.startswith("STEP ") and "err=" in l and "err=ok" not in l:
+            cs["config"].append(l)          # a step that raised an error: the scenario is not a valid history
         elif l.startswith("TI "):
             m = re.search(r"Lambda=\s*(\S+)\s+dA/dLambda=\s*(\S+)", l)
             if m:
@@ -454,7 +457,7 @@ WIDTHS = [0.25, 0.5, 1.0, 2.0]
 
 def gen_case(r, k, quick=True):
     kind = r.choice(["harmonic", "harmonic", "harmonic", "walls", "walls", "linear"])
-    nv = r.choice([1, 1, 2])
+    nv = r.choice([1, 1, 2, 2, 3])
     vars_ = []
     for i in range(nv):
         v = {"w": r.choice(WIDTHS), "per": False}
@@ -463,8 +466,8 @@ def gen_case(r, k, quick=True):
             v["P"] = r.choice([4.0, 8.0])
             v["wc"] = r.choice([0.0, 0.0, 1.0, -2.5, 4.0])
         vars_.append(v)
-    c = {"kind": kind, "vars": vars_, "id": k, "it0": r.choice([0, 0, 0, 5, 12]), "accw": False,
-         "dec": False, "lexp": 1.0, "equil": 0, "fmt": r.choice(["text", "text", "binary"])}
+    c = {"kind": kind, "vars": vars_, "id": k, "it0": r.choice([0, 0, 0, 5, 12, 12, 2 ** 31 - 2, 2 ** 32 + 5, 2 ** 53, 2 ** 62 - 100]), "accw": False,
+         "dec": False, "lexp": 1.0, "equil": 0, "fmt": r.choice(["text", "text", "binary"]), "mem": r.random() < 0.4}
     if kind == "walls":
         modes = ["none", "none", "kc", "ks", "ks", "kl"]
     else:
@@ -495,7 +498,7 @@ def gen_case(r, k, quick=True):
             c["lwk"], c["uwk"] = r.choice([(1.0, 4.0), (4.0, 1.0), (2.0, 8.0), (0.5, 2.0), (9.0, 4.0), (3.0, 3.0)])
             c["k"] = None
     # schedules
-    c["N"] = r.choice([1, 2, 2, 3, 3, 4, 5, 8])
+    c["N"] = r.choice([1, 2, 2, 3, 3, 4, 5, 6, 7, 8, 12])
     c["nstages"] = r.choice([1, 2, 3, 4])
     if m in ("kc", "ks", "kl"):
         c["dec"] = r.random() < 0.3 and not (kind == "walls" and c.get("lwk") is not None)
@@ -534,8 +537,10 @@ def gen_case(r, k, quick=True):
                 anchor = r.choice([c["lower"][i], c["upper"][i]])
             else:
                 anchor = r.choice([c["centers"][i], c["target_centers"][i]])
-            if mode < 0.25:
+            if mode < 0.2:
                 x = anchor                       # exactly on the wall / the centre
+            elif mode < 0.3:
+                x = anchor + r.choice([-1, 1]) * 2.0 ** -20      # just inside / just outside
             elif mode < 0.5 and v["per"]:
                 x = anchor + r.choice([-1, 1]) * v["P"] / 2 + r.choice([0, 0, 0.25, -0.25])   # at the far side of the circle
             elif mode < 0.8:
@@ -554,8 +559,23 @@ def gen_case(r, k, quick=True):
             rel = (t - c["it0"]) % c["N"] if m != "none" else 2
             pr = 0.45 if rel in (0, 1) else 0.12
             if r.random() < pr:
-                ev.append((r.choice(list(seg)), xs if r.random() < 0.6 else [x + 0.125 for x in xs]))
+                # a step computed again keeps its configuration, or is perturbed by a quarter of the width (a jump of more than half
+                # a width between the saved and the recomputed value is an error of the restart: colvar::calc_colvar_properties)
+                ev.append((r.choice(list(seg)), xs if r.random() < 0.6 else [x + 0.25 * v["w"] for x, v in zip(xs, vars_)]))
     c["events"] = ev
+    # the whole problem at another length scale (powers of two: every operation stays exact); energies do not change
+    sc = r.choice([1.0, 1.0, 1.0, 2.0 ** -10, 2.0 ** 20])
+    if sc != 1.0:
+        c["scale"] = sc
+        for v in vars_:
+            v["w"] *= sc
+            if v["per"]:
+                v["P"] *= sc
+                v["wc"] *= sc
+        for key in ("centers", "target_centers", "lower", "upper"):
+            if key in c:
+                c[key] = [x * sc for x in c[key]]
+        c["events"] = [(typ, [x * sc for x in xs]) for typ, xs in ev]
     return c
 
 
@@ -1221,8 +1241,8 @@ def kman_part(run, r, runner, n):
         c["pos"] = [gen_positions(r, c["mvar"]) for _ in c["events"]]
         last = None
         for j, (typ, xs) in enumerate(c["events"]):      # a step computed again keeps its configuration (or is perturbed, as gen_case decided)
-            if typ != "S" and last is not None and xs == c["events"][last][1]:
-                c["pos"][j] = c["pos"][last]
+            if typ != "S" and last is not None:
+                c["pos"][j] = c["pos"][last]       # same configuration (a jump of the value at a restart is an input error)
             if typ == "S":
                 last = j
         cases.append(c)
@@ -1245,7 +1265,8 @@ def kman_part(run, r, runner, n):
             elif typ == "R":
                 f = os.path.join(runner.scratch, "km%d_%d.state" % (k, nsave))
                 nsave += 1
-                L += ["save %s %s" % (c.get("fmt", "text"), f), "fresh", "capture"] + conf + ["load %s" % f]
+                ld = "load" if not c.get("mem") else ("loadbuf" if c.get("fmt", "text") == "binary" else "loadstr")   # file / memory buffer / string
+                L += ["save %s %s" % (c.get("fmt", "text"), f), "fresh", "capture"] + conf + ["%s %s" % (ld, f)]
             L += ["step", "rdump"]
         L.append("echo END %d" % k)
         c["scenario"] = L
